@@ -1,10 +1,98 @@
-import Fv.Chan.Topic
+import Fv.Lemmas.TopicExact
+import Fv.Lemmas.TopicFinal
 /-!
 C08 — topic pub/sub routes by subscription; only full mailboxes drop.
 Statements over the model `Fv.Chan.Topic` (Q) and its history variables (`TopicSpec`).
 -/
 namespace Fv.Props.C08
 open Fv.Chan.Topic
+
+/-! ## Programs -/
+
+/-- no receiver `close()` in the program (receiver drops, clones, conversions are allowed) -/
+def noRClose (ops : List Op) : Bool := ops.all (fun op => match op with | .rClose _ => false | _ => true)
+
+/-- no sender `clone()` in the program: a single sender handle -/
+def noSClone (ops : List Op) : Bool := ops.all (fun op => match op with | .sClone _ => false | _ => true)
+
+theorem noRClose_spec (ops : List Op) (h : noRClose ops = true) : NoRClose ops := by
+  intro op hop r he
+  subst he
+  have := List.all_eq_true.1 h _ hop
+  simp at this
+
+theorem noSClone_spec (ops : List Op) (h : noSClone ops = true) : ∀ op ∈ ops, ∀ q, op ≠ .sClone q := by
+  intro op hop r he
+  subst he
+  have := List.all_eq_true.1 h _ hop
+  simp at this
+
+theorem exec_nil (s : St) : exec s [] = s := rfl
+theorem exec_cons (s : St) (op : Op) (ops : List Op) : exec s (op :: ops) = exec (step s op).1 ops := rfl
+
+theorem exec_append (s : St) (a b : List Op) : exec s (a ++ b) = exec (exec s a) b := by
+  induction a generalizing s with
+  | nil => rfl
+  | cons op a ih => simp only [List.cons_append, exec_cons]; exact ih _
+
+/-- the history variables ride on the model run: same states -/
+theorem grun_st (g : TopicSpec) (ops : List Op) : (grun g ops).st = exec g.st ops := by
+  induction ops generalizing g with
+  | nil => rfl
+  | cons op ops ih =>
+    simp only [grun, exec_cons]
+    rw [ih]; simp only [gstep, gnext_st]
+
+/-! ## Routing -/
+
+/-- **Order, at most once** (every program, every capacity, both flavours). What receiver `r`
+obtained so far followed by what still sits in its mailbox is the image of a strictly increasing
+list `acc r` of indices into the publish log: a subsequence of the accepted publishes, in publish
+order, each publish at most once. -/
+theorem C08_order_once (cap : Nat) (k : Kind) (ops : List Op) (r : Nat) :
+    let g := grun (ginit cap k) ops
+    g.got r ++ bufOf g.st r = (g.acc r).map (msgAt g.pubs) ∧
+    (g.acc r).Pairwise (· < ·) ∧ (∀ i ∈ g.acc r, i < g.pubs.length) := by
+  have h := GI_grun _ ops (GI_ginit cap k)
+  exact ⟨h.hist r, h.inc r, h.bnd r⟩
+
+/-- **Exactly the subscribed topics, minus full mailboxes** — partial: programs without a
+receiver `close()` (see `C08_fails_close`). The publishes that entered `r`'s mailbox are exactly
+those made while `r` was subscribed to the topic (open live handle, topic in its subscription
+set at publish time) and its mailbox was not full: the only omission is the newest message for a
+full mailbox, and never a message of a topic it was not subscribed to. -/
+theorem C08_routing_partial (cap : Nat) (k : Kind) (ops : List Op) (hops : noRClose ops = true) (r : Nat) :
+    let g := grun (ginit cap k) ops
+    g.acc r = owed g.pubs r ∧
+    g.got r ++ bufOf g.st r = (owed g.pubs r).map (msgAt g.pubs) := by
+  have h := EI_grun _ ops (noRClose_spec ops hops) (EI_ginit cap k)
+  exact ⟨h.exact r, by rw [← h.exact r]; exact h.gi.hist r⟩
+
+/-- never a foreign topic (same restriction): every message `r` obtained was published to a
+topic `r` was subscribed to at that publish, while its mailbox had room -/
+theorem C08_no_foreign_topic_partial (cap : Nat) (k : Kind) (ops : List Op) (hops : noRClose ops = true) (r : Nat)
+    (m : Msg) (hm : m ∈ (grun (ginit cap k) ops).got r) :
+    ∃ (i : Nat) (p : Pub), (grun (ginit cap k) ops).pubs[i]? = some p ∧ m = (p.t, p.v) ∧ p.subscribed r = true ∧ p.full r = false := by
+  have h := (C08_routing_partial cap k ops hops r).2
+  have hm' : m ∈ (owed (grun (ginit cap k) ops).pubs r).map (msgAt (grun (ginit cap k) ops).pubs) := by
+    rw [← h]; exact List.mem_append_left _ hm
+  obtain ⟨i, hi, rfl⟩ := List.mem_map.1 hm'
+  simp only [owed, List.mem_filter, List.mem_range] at hi
+  obtain ⟨hlt, hp⟩ := hi
+  cases hpi : (grun (ginit cap k) ops).pubs[i]? with
+  | none => simp [hpi] at hp
+  | some p =>
+    simp only [hpi, Bool.and_eq_true, Bool.not_eq_eq_eq_not, Bool.not_true] at hp
+    exact ⟨i, p, hpi, by simp [msgAt, hpi], hp.1, hp.2⟩
+
+/-- nothing owed is lost (same restriction): a publish made while `r` was subscribed and its
+mailbox had room is in `acc r`, hence (by `C08_order_once`) obtained or still buffered -/
+theorem C08_no_loss_partial (cap : Nat) (k : Kind) (ops : List Op) (hops : noRClose ops = true) (r i : Nat) (p : Pub)
+    (hp : (grun (ginit cap k) ops).pubs[i]? = some p) (hs : p.subscribed r = true) (hf : p.full r = false) :
+    i ∈ (grun (ginit cap k) ops).acc r := by
+  rw [(C08_routing_partial cap k ops hops r).1]
+  simp only [owed, List.mem_filter, List.mem_range]
+  exact ⟨(List.getElem?_eq_some_iff.1 hp).1, by simp [hp, hs, hf]⟩
 
 /-! ## Publishing never blocks -/
 
@@ -16,6 +104,151 @@ theorem C08_send_never_blocks (s : St) (h : Nat) (t : Topic) (v : Val) :
   split
   · simp
   · split <;> simp
+
+/-! ## Disconnected -/
+
+theorem DI_exec (cap : Nat) (k : Kind) (ops : List Op) (h : noSClone ops = true) : DI (exec (init cap k) ops) := by
+  have hs := noSClone_spec ops h
+  suffices ∀ s, DI s → DI (exec s ops) from this _ (DI_init cap k)
+  clear h
+  induction ops with
+  | nil => intro s hd; exact hd
+  | cons op ops ih =>
+    intro s hd
+    rw [exec_cons]
+    exact ih (fun o ho => hs o (List.mem_cons_of_mem _ ho)) _ (DI_step s op (hs op (List.mem_cons_self ..)) hd)
+
+theorem RI_exec (cap : Nat) (k : Kind) (ops : List Op) (h : noRClose ops = true) : RI (exec (init cap k) ops) := by
+  have hs := noRClose_spec ops h
+  suffices ∀ s, RI s → RI (exec s ops) from this _ (RI_init cap k)
+  clear h
+  induction ops with
+  | nil => intro s hd; exact hd
+  | cons op ops ih =>
+    intro s hd
+    rw [exec_cons]
+    exact ih (fun o ho => hs o (List.mem_cons_of_mem _ ho)) _ (RI_step s op (hs op (List.mem_cons_self ..)) hd)
+
+/-- **Disconnected only after every sender is gone and the mailbox is drained** — partial: a
+single sender handle (no sender `clone()` in the program; with clones it is false, `C08_fails_F4a`).
+If a receive form on a receiver whose own handle is not closed answers Disconnected (stream: end),
+then every sender handle is closed or dropped and that receiver's mailbox is empty. -/
+theorem C08_disc_sound_partial (cap : Nat) (k : Kind) (pre : List Op) (hpre : noSClone pre = true)
+    (op : Op) (r : Nat) (ht : recvTarget op = some r)
+    (hres : (step (exec (init cap k) pre) op).2 = .disc ∨ (step (exec (init cap k) pre) op).2 = .none)
+    (hopen : ∀ x, (exec (init cap k) pre).rxs[r]? = some x → x.closed = false) :
+    sendersGone (exec (init cap k) pre) = true ∧ bufOf (exec (init cap k) pre) r = [] := by
+  obtain ⟨x, hx, hl, hb, hd⟩ := recv_disc_cases _ op r ht hres
+  have hdisc : x.disc = true := by
+    rcases hd with hd | ⟨hc, _⟩
+    · exact hd
+    · rw [hopen x hx] at hc; cases hc
+  exact ⟨(DI_exec cap k pre hpre).sound r x hx hl hdisc, by simp [bufOf, hx, hb]⟩
+
+/-- **Disconnected is final** — partial: no sender `clone()` afterwards (`C08_fails_F4b`). From a
+state in which every sender handle is gone and `r`'s mailbox is empty, whatever follows, the
+mailbox stays empty and no receive form on `r` ever returns a value again. -/
+theorem C08_disc_final_partial (s : St) (r : Nat) (hg : sendersGone s = true) (hb : bufOf s r = [])
+    (post : List Op) (hpost : noSClone post = true) :
+    sendersGone (exec s post) = true ∧ bufOf (exec s post) r = [] ∧
+    ∀ op, recvTarget op = some r → (∀ h, op ≠ .sClone h) → ∀ t v, (step (exec s post) op).2 ≠ .msg t v := by
+  have hs := noSClone_spec post hpost
+  clear hpost
+  induction post generalizing s with
+  | nil =>
+    refine ⟨hg, hb, ?_⟩
+    intro op ht hop
+    exact (FI_step s op r hop hg hb).2.2 ht
+  | cons o post ih =>
+    rw [exec_cons]
+    obtain ⟨h1, h2, _⟩ := FI_step s o r (hs o (List.mem_cons_self ..)) hg hb
+    exact ih _ h1 h2 (fun o' ho => hs o' (List.mem_cons_of_mem _ ho))
+
+theorem disc_stable_exec (s : St) (ops : List Op) (r : Nat) (x : Rx) (hx : s.rxs[r]? = some x) (hd : x.disc = true) :
+    ∃ y, (exec s ops).rxs[r]? = some y ∧ y.disc = true := by
+  induction ops generalizing s x with
+  | nil => exact ⟨x, hx, hd⟩
+  | cons op ops ih =>
+    rw [exec_cons]
+    obtain ⟨y, hy, hyd⟩ := disc_stable_step s op r x hx hd
+    exact ih _ y hy hyd
+
+/-- **Disconnected is observed** — partial: the receiver holds at least one subscription when a
+sender handle is closed or dropped, and no receiver `close()` happened before (with an empty
+subscription set, or for a receiver cloned afterwards, it is false: `C08_fails_F4c`,
+`C08_fails_F4c_clone`). From that step on, in every continuation, the mailbox carries the
+disconnected flag, so any receive form that finds it empty answers Disconnected — never Empty,
+Timeout, Pending or a park. -/
+theorem C08_disc_observed_partial (cap : Nat) (k : Kind) (pre : List Op) (hpre : noRClose pre = true)
+    (op : Op) (h : Nat) (hsd : IsShutdownOf (exec (init cap k) pre) op h)
+    (r : Nat) (x : Rx) (hx : (exec (init cap k) pre).rxs[r]? = some x) (hl : x.live = true) (hs : x.subs ≠ [])
+    (post : List Op) :
+    ∃ y, (exec (init cap k) (pre ++ op :: post)).rxs[r]? = some y ∧ y.disc = true ∧
+      (y.live = true → y.buf = [] → ∀ rop, recvTarget rop = some r →
+        (step (exec (init cap k) (pre ++ op :: post)) rop).2 = .disc ∨
+        (step (exec (init cap k) (pre ++ op :: post)) rop).2 = .none ∨
+        (step (exec (init cap k) (pre ++ op :: post)) rop).2 = .invalid) := by
+  obtain ⟨y0, hy0, hd0, _⟩ := shutdown_disc _ op h hsd (RI_exec cap k pre hpre) r x hx hl hs
+  rw [exec_append, exec_cons]
+  obtain ⟨y, hy, hyd⟩ := disc_stable_exec _ post r y0 hy0 hd0
+  exact ⟨y, hy, hyd, fun hyl hyb rop ht => recv_when_disc _ rop r y ht hy hyl hyb hyd⟩
+
+/-- **C08, Disconnected clause, as far as it holds today**: for a program with a single sender
+handle and no receiver `close()`, (1) Disconnected is answered only when every sender handle is
+gone and the mailbox is drained, (2) after that the receiver never obtains a value, (3) a
+receiver holding a subscription at shutdown does observe Disconnected once drained. -/
+theorem C08_partial (cap : Nat) (k : Kind) (pre post : List Op) (op : Op) (h r : Nat) (x : Rx)
+    (hS : noSClone (pre ++ op :: post) = true) (hR : noRClose pre = true)
+    (hsd : IsShutdownOf (exec (init cap k) pre) op h)
+    (hx : (exec (init cap k) pre).rxs[r]? = some x) (hl : x.live = true) (hs : x.subs ≠ []) :
+    let s := exec (init cap k) (pre ++ op :: post)
+    (∀ rop, recvTarget rop = some r → ((step s rop).2 = .disc ∨ (step s rop).2 = .none) →
+        (∀ y, s.rxs[r]? = some y → y.closed = false) → sendersGone s = true ∧ bufOf s r = []) ∧
+    (sendersGone s = true → bufOf s r = [] → ∀ more, noSClone more = true → bufOf (exec s more) r = []) ∧
+    (∃ y, s.rxs[r]? = some y ∧ y.disc = true ∧
+        (y.live = true → y.buf = [] → ∀ rop, recvTarget rop = some r →
+          (step s rop).2 = .disc ∨ (step s rop).2 = .none ∨ (step s rop).2 = .invalid)) := by
+  refine ⟨?_, ?_, ?_⟩
+  · intro rop ht hres hopen
+    exact C08_disc_sound_partial cap k _ hS rop r ht hres hopen
+  · intro hg hb more hm
+    exact (C08_disc_final_partial _ r hg hb more hm).2.1
+  · exact C08_disc_observed_partial cap k pre hR op h hsd r x hx hl hs post
+
+/-- the disconnected flag of a mailbox is sticky (every program) -/
+theorem C08_disc_sticky (s : St) (ops : List Op) (r : Nat) (x : Rx) (hx : s.rxs[r]? = some x) (hd : x.disc = true) :
+    ∃ y, (exec s ops).rxs[r]? = some y ∧ y.disc = true := disc_stable_exec s ops r x hx hd
+
+/-! ## Non-vacuity: the hypotheses are satisfiable and the conclusions say something -/
+
+/-- routing: capacity 1, two publishes to a subscribed topic (the second finds the mailbox full),
+one to a foreign topic; the receiver is owed exactly publish 0 and obtains it -/
+example :
+    let ops := [Op.subscribe 0 1, .send 0 1 5, .send 0 1 6, .send 0 2 7, .tryRecv 0]
+    let g := grun (ginit 1 .sync) ops
+    noRClose ops = true ∧ g.pubs.length = 3 ∧ owed g.pubs 0 = [0] ∧ g.acc 0 = [0] ∧ g.got 0 = [(1, 5)] ∧
+      bufOf g.st 0 = [] := by
+  decide
+
+/-- two receivers (a clone), async flavour, unsubscribe in between -/
+example :
+    let ops := [Op.subscribe 0 1, .rClone 0, .send 0 1 5, .unsubscribe 1 1, .send 0 1 6, .recv 0, .pollNext 1, .pollNext 1]
+    let g := grun (ginit 2 .async) ops
+    noRClose ops = true ∧ owed g.pubs 0 = [0, 1] ∧ owed g.pubs 1 = [0] ∧ g.got 0 = [(1, 5)] ∧ g.got 1 = [(1, 5)] ∧
+      bufOf g.st 0 = [(1, 6)] ∧ results (init 2 .async) ops = [.unit, .handle 1, .ok, .unit, .ok, .msg 1 5, .msg 1 5, .pending] := by
+  decide
+
+/-- Disconnected: single sender, subscribed receiver, shutdown, drain, Disconnected, and it stays -/
+example :
+    let pre := [Op.subscribe 0 1, .send 0 1 5]
+    let post := [Op.tryRecv 0, .tryRecv 0, .send 0 1 6, .tryRecv 0]
+    noSClone (pre ++ Op.sDrop 0 :: post) = true ∧ noRClose pre = true ∧
+    (∃ tx, txLive (exec (init 2 .sync) pre) 0 = some tx ∧ tx.closed = false) ∧
+    results (init 2 .sync) (pre ++ Op.sDrop 0 :: post) = [.unit, .ok, .unit, .msg 1 5, .disc, .invalid, .disc] := by
+  refine ⟨by decide, by decide, ⟨{ kind := .sync, closed := false, live := true }, by decide, rfl⟩, by decide⟩
+
+example : IsShutdownOf (exec (init 2 .sync) [Op.subscribe 0 1, .send 0 1 5]) (.sDrop 0) 0 :=
+  ⟨Or.inr rfl, { kind := .sync, closed := false, live := true }, by decide, rfl⟩
 
 /-! ## Witnesses: the full statement is false on the model (and on the code, see findings/C08_topic.case) -/
 
